@@ -25,9 +25,12 @@ DefaultCfg == [mode |-> "onlyonce", qq0 |-> TRUE, maxinflight |-> 100, sessexpir
 
 TInit == /\ l = 1 /\ BInit(DefaultCfg)
 
+\* application properties as one canonical string (absent in traces recorded before they were logged)
+PropsOf(x) == IF "props" \in DOMAIN x THEN x.props ELSE ""
+
 Msg(x) == [topic |-> x.topic, lv |-> x.lv, sys |-> x.sys, qos |-> x.qos, retain |-> x.retain, empty |-> x.empty,
            tag |-> x.tag, pid |-> x.pid, dup |-> x.dup, alias |-> x.alias, notopic |-> x.notopic, size |-> x.size, fsize |-> x.fsize,
-           msgexp |-> x.msgexp, ms |-> x.ms]
+           msgexp |-> x.msgexp, ms |-> x.ms, props |-> PropsOf(x)]
 
 TNext ==
   \/ /\ Is("reset")
@@ -39,7 +42,7 @@ TNext ==
      /\ ctr' = [pub |-> 0, oid |-> 0]
      /\ aux' = [wills |-> <<>>, reg |-> <<>>, closedc |-> {}, srvended |-> {}, sockc |-> {}, nreg |-> 0]
   \/ Is("connect")     /\ Connect(ev.k, ev.cid, ev.ver, ev.clean, ev.recvmax, ev.expiry, [maxpkt |-> ev.maxpkt, aliasmax |-> ev.aliasmax],
-                                   IF ev.haswill THEN [has |-> TRUE] @@ ev.will ELSE NoWill, ev.conn, ev.ms)
+                                   IF ev.haswill THEN [has |-> TRUE, props |-> PropsOf(ev.will)] @@ ev.will ELSE NoWill, ev.conn, ev.ms)
   \/ Is("connack")     /\ \/ /\ Connack(ev.k, ev.sp, ev.code, ev.ms)
                              \* C05: every acknowledged older connection with this client id had been closed (its end was
                              \* readable) when this CONNACK was read
@@ -57,7 +60,7 @@ TNext ==
   \/ Is("pubrel")      /\ ClientPubrel(ev.k, ev.pid)
   \/ Is("deliver")     /\ Deliver(ev.k, [topic |-> ev.topic, tag |-> ev.tag, qos |-> ev.qos, retain |-> ev.retain,
                                          dup |-> ev.dup, pid |-> ev.pid, ids |-> ev.ids, size |-> ev.size, alias |-> ev.alias,
-                                         msgexp |-> ev.msgexp, ms |-> ev.ms])
+                                         msgexp |-> ev.msgexp, ms |-> ev.ms, props |-> PropsOf(ev)])
   \/ Is("cack")        /\ ClientAck(ev.k, ev.t, ev.pid, ev.code)
   \/ Is("relout")      /\ PubrelRecv(ev.k, ev.pid)
   \/ Is("pingreq")     /\ Pingreq(ev.k)
